@@ -43,8 +43,6 @@ Section Lang.
         else match enc_of e with Some p => (c, p) :: sends_from c r | None => sends_from c r end
     end.
 
-  Definition submitted (l : list dev) : Prop := exists p0, In (DS i p0) l /\ pubq p0 = true.
-
   Definition openP (ph : phase) : Prop :=
     match ph with GCur _ _ | GPend _ | GRel _ | GRelCur _ => True | _ => False end.
   Definition relP (pid : N) (ph : phase) : Prop := ph = GRel pid \/ ph = GRelInt pid \/ ph = GRelCur pid.
@@ -63,10 +61,11 @@ Section Lang.
     gnext i g e = match g_ph g, p with
                   | GNot, Publish pb | GInt _, Publish pb => mkG (g_sp g) (g_sub g) (GCur (pub_pid pb) (pub_dup pb))
                   | GRelInt pid, Pubrel _ => mkG (g_sp g) (g_sub g) (GRelCur pid)
+                  | GAbs, _ => mkG (g_sp g) (g_sub g) GOther
                   | _, _ => g
                   end /\
     (gok i g e <-> match g_ph g with
-                   | GAbs => True
+                   | GAbs | GOther => True
                    | GNot => exists pb, p = Publish pb /\ pub_dup pb = false /\ 1 <= pub_pid pb <= 65535 /\ pub_qos pb <> 0 /\ norm p = g_sub g
                    | GInt pid => exists pb, p = Publish pb /\ pub_dup pb = true /\ pub_pid pb = pid /\ pub_qos pb <> 0 /\ norm p = g_sub g /\ g_sp g = true
                    | GRel pid => p = Pubrel (default_ack pid)
@@ -89,7 +88,7 @@ Section Lang.
 
   Lemma gnext_rec g e a : rec_of e = Some a ->
     gnext i g e = match g_ph g with GPend pid => mkG (g_sp g) (g_sub g) (GRel pid) | _ => g end /\
-    (gok i g e -> match g_ph g with GPend pid | GRel pid => ack_pid a = pid | GAbs => True | _ => False end).
+    (gok i g e -> match g_ph g with GPend pid | GRel pid => ack_pid a = pid | _ => False end).
   Proof.
     destruct e as [|it|]; cbn; try discriminate. destruct (it_p it); try discriminate. destruct (it_rel it) as [id|]; [|discriminate].
     destruct (id =? i) eqn:E; [|discriminate]. intros H. inversion H; subst. apply N.eqb_eq in E. subst id.
@@ -100,19 +99,24 @@ Section Lang.
   Lemma gnext_other g e :
     boundary e = false -> sess_item e = None -> enc_of e = None -> done_of e = false -> rec_of e = None ->
     (g_ph g <> GAbs -> gnext i g e = g) /\
-    (g_ph g = GAbs -> gnext i g e = g \/ exists p0, e = DS i p0 /\ pubq p0 = true /\ gnext i g e = mkG (g_sp g) (norm p0) GNot).
+    (g_ph g = GAbs -> gnext i g e = g \/ exists p0, e = DS i p0 /\ pubq p0 = true /\ gnext i g e = mkG (g_sp g) (norm p0) GNot) /\
+    (forall p0, e = DS i p0 -> gok i g e -> g_ph g = GAbs).
   Proof.
     intros H1 H2 H3 H4 H5.
-    destruct e as [[id|id|id|id a t res|id p0 r v|m|id k|id p0 r ok|id|m| | | ]|it|id p0]; cbn in *; try discriminate; try (split; intros; auto; fail).
-    - destruct ok; [|split; intros; auto]. destruct (id =? i); [discriminate|split; intros; auto].
-    - rewrite H4. split; intros; auto.
-    - destruct (it_p it); try (split; intros; auto; fail).
-      + destruct (it_sess it); [discriminate|split; intros; auto].
-      + destruct (it_rel it) as [id|]; [|split; intros; auto]. destruct (id =? i); [discriminate|split; intros; auto].
-    - split.
+    destruct e as [[id|id|id|id a t res|id p0 r v|m|id k|id p0 r ok|id|m| | | ]|it|id p0]; cbn in *; try discriminate;
+      try (split; [intros; auto|split; [intros; auto|intros; discriminate]]; fail).
+    - destruct ok; [|split; [intros; auto|split; [intros; auto|intros; discriminate]]].
+      destruct (id =? i); [discriminate|split; [intros; auto|split; [intros; auto|intros; discriminate]]].
+    - rewrite H4. split; [intros; auto|split; [intros; auto|intros; discriminate]].
+    - destruct (it_p it); try (split; [intros; auto|split; [intros; auto|intros; discriminate]]; fail).
+      + destruct (it_sess it); [discriminate|split; [intros; auto|split; [intros; auto|intros; discriminate]]].
+      + destruct (it_rel it) as [id|]; [|split; [intros; auto|split; [intros; auto|intros; discriminate]]].
+        destruct (id =? i); [discriminate|split; [intros; auto|split; [intros; auto|intros; discriminate]]].
+    - split; [|split].
       + intros Hne. destruct (g_ph g); try reflexivity. congruence.
       + intros ->. destruct ((id =? i) && pubq p0) eqn:E; [|left; reflexivity]. right. apply andb_true_iff in E. destruct E as [E1 E2].
         apply N.eqb_eq in E1. subst id. exists p0. auto.
+      + intros p1 E Hk. inversion E; subst. apply Hk. reflexivity.
   Qed.
 
   Ltac by_kind g e :=
@@ -127,53 +131,79 @@ Section Lang.
        [rewrite (gnext_done g e Ed)
        |destruct (rec_of e) as [?a|] eqn:Er;
         [let Hrk := fresh "Hrk" in destruct (gnext_rec g e _ Er) as [-> Hrk]
-        |let Hna := fresh "Hna" in let Ha := fresh "Ha" in destruct (gnext_other g e Eb Es Ee Ed Er) as [Hna Ha]]]]]].
+        |let Hna := fresh "Hna" in let Ha := fresh "Ha" in let Hds := fresh "Hds" in destruct (gnext_other g e Eb Es Ee Ed Er) as (Hna & Ha & Hds)]]]]].
 
   Lemma grun_snoc g l e : grun i g (l ++ [e]) = gnext i (grun i g l) e.
   Proof. rewrite grun_app. reflexivity. Qed.
 
-  (* ---- once a QoS 1/2 publish, always ---- *)
-  Lemma nonabs_step g e : g_ph g <> GAbs -> g_ph (gnext i g e) <> GAbs.
+  (* ---- once a QoS 1/2 publish, always; the submission comes first ---- *)
+  Definition q12 (ph : phase) : Prop := ph <> GAbs /\ ph <> GOther.
+
+  Lemma q12_step g e : q12 (g_ph g) -> q12 (g_ph (gnext i g e)).
   Proof.
-    intros Hne. by_kind g e; cbn [g_ph].
-    - destruct (g_ph g) as [| |pid d|pid|pid|pid|pid|pid|]; try destruct d; cbn; congruence.
-    - destruct (g_ph g); try destruct sp; cbn; congruence.
-    - destruct (g_ph g) eqn:Eph; destruct p; cbn; rewrite ?Eph; congruence.
-    - destruct (g_ph g) eqn:Eph; cbn; rewrite ?Eph; congruence.
-    - destruct (g_ph g) eqn:Eph; cbn; rewrite ?Eph; congruence.
-    - rewrite (Hna Hne). exact Hne.
+    intros [Hne Hno]. unfold q12. by_kind g e; cbn [g_ph].
+    - destruct (g_ph g) as [| |pid d|pid|pid|pid|pid|pid| |]; try destruct d; cbn; split; congruence.
+    - destruct (g_ph g); try destruct sp; cbn; split; congruence.
+    - destruct (g_ph g) eqn:Eph; destruct p; cbn; rewrite ?Eph; split; congruence.
+    - destruct (g_ph g) eqn:Eph; cbn; rewrite ?Eph; split; congruence.
+    - destruct (g_ph g) eqn:Eph; cbn; rewrite ?Eph; split; congruence.
+    - rewrite (Hna Hne). split; assumption.
   Qed.
 
-  Lemma nonabs_run l : forall g, g_ph g <> GAbs -> g_ph (grun i g l) <> GAbs.
-  Proof. induction l as [|e l IH]; intros g H; [exact H|]. cbn. apply IH. apply nonabs_step. exact H. Qed.
+  Lemma q12_run l : forall g, q12 (g_ph g) -> q12 (g_ph (grun i g l)).
+  Proof. induction l as [|e l IH]; intros g H; [exact H|]. cbn. apply IH. apply q12_step. exact H. Qed.
 
-  Lemma born l : submitted l -> forall g, g_ph (grun i g l) <> GAbs.
+  Lemma other_step g e : g_ph g = GOther -> g_ph (gnext i g e) = GOther.
   Proof.
-    intros (p0 & Hin & Hq). induction l as [|e l IH]; [destruct Hin|]. intros g. cbn [grun fold_left]. fold (grun i (gnext i g e) l).
-    destruct (g_ph g) eqn:Eph.
-    2-9: apply nonabs_run; apply nonabs_step; congruence.
-    destruct Hin as [->|Hin]; [|apply IH; exact Hin].
-    apply nonabs_run. cbn. rewrite Eph, N.eqb_refl, Hq. cbn. discriminate.
+    intros H. by_kind g e; cbn [g_ph]; rewrite ?H; cbn; rewrite ?H; try reflexivity.
+    rewrite Hna; [exact H|congruence].
+  Qed.
+
+  (* a submission of i as a QoS 1/2 publish in an accepted log: nothing was handed to the encoder for i before *)
+  Lemma ds_position l : forall g p0, accepts i g l -> In (DS i p0) l -> pubq p0 = true ->
+    g_ph g <> GOther /\ (g_ph g = GAbs -> q12 (g_ph (grun i g l))).
+  Proof.
+    induction l as [|e l IH]; intros g p0 Hacc Hin Hq; [destruct Hin|]. destruct Hacc as [Hok Hacc]. cbn [grun fold_left]. fold (grun i (gnext i g e) l).
+    destruct Hin as [->|Hin].
+    - assert (Hab : g_ph g = GAbs) by (apply Hok; reflexivity). split; [congruence|]. intros _. apply q12_run.
+      cbn. rewrite Hab, N.eqb_refl, Hq. cbn. split; discriminate.
+    - destruct (IH (gnext i g e) p0 Hacc Hin Hq) as [A B]. split.
+      + intros Ho. apply A. apply other_step. exact Ho.
+      + intros Hab. destruct (g_ph (gnext i g e)) eqn:En; try (apply q12_run; rewrite En; split; discriminate); [apply B; reflexivity|congruence].
+  Qed.
+
+  Definition submitted (l : list dev) : Prop := exists p0, In (DS i p0) l /\ pubq p0 = true.
+
+  (* ... so when something is handed to the encoder for a submitted QoS 1/2 publish, the submission is behind *)
+  Lemma sub_q12 l1 e l2 p : accepts i g0 (l1 ++ e :: l2) -> enc_of e = Some p -> submitted (l1 ++ e :: l2) -> q12 (g_ph (grun i g0 l1)).
+  Proof.
+    intros Hacc He (p0 & Hin & Hq). apply accepts_app in Hacc. destruct Hacc as [Ha1 [Hok Ha2]].
+    apply in_app_or in Hin. destruct Hin as [Hin|[->|Hin]].
+    - apply (ds_position l1 g0 p0 Ha1 Hin Hq). reflexivity.
+    - discriminate.
+    - set (g := grun i g0 l1) in *. destruct (ds_position l2 (gnext i g e) p0 Ha2 Hin Hq) as [A _].
+      destruct (gnext_enc g e p He) as [Eg _]. rewrite Eg in A.
+      destruct (g_ph g) eqn:Eph; try (split; discriminate); exfalso; apply A; [destruct p; reflexivity|rewrite Eph; reflexivity].
   Qed.
 
   (* the content the machine remembers is the submitted one *)
   Definition sub_inv (g : gst) (l : list dev) : Prop :=
-    g_ph g <> GAbs -> exists p0, In (DS i p0) l /\ pubq p0 = true /\ g_sub g = norm p0.
+    q12 (g_ph g) -> exists p0, In (DS i p0) l /\ pubq p0 = true /\ g_sub g = norm p0.
 
   Lemma sub_step g l e : sub_inv g l -> sub_inv (gnext i g e) (l ++ [e]).
   Proof.
-    intros H. unfold sub_inv in *.
-    assert (Hk : g_ph g <> GAbs -> exists p0, In (DS i p0) (l ++ [e]) /\ pubq p0 = true /\ g_sub g = norm p0).
+    intros H. unfold sub_inv, q12 in *.
+    assert (Hk : g_ph g <> GAbs /\ g_ph g <> GOther -> exists p0, In (DS i p0) (l ++ [e]) /\ pubq p0 = true /\ g_sub g = norm p0).
     { intros Hne. destruct (H Hne) as (p0 & A & B & C). exists p0. split; [apply in_or_app; left; exact A|auto]. }
     by_kind g e; cbn [g_ph g_sub].
-    - intros Hne. apply Hk. destruct (g_ph g); cbn in Hne; congruence.
-    - intros Hne. apply Hk. destruct (g_ph g); cbn in Hne; congruence.
-    - destruct (g_ph g) eqn:Eph; destruct p; cbn [g_ph g_sub]; intros Hne; apply Hk; congruence.
-    - destruct (g_ph g) eqn:Eph; cbn [g_ph g_sub]; intros Hne; apply Hk; congruence.
-    - destruct (g_ph g) eqn:Eph; cbn [g_ph g_sub]; intros Hne; apply Hk; congruence.
+    - intros [Hne Hno]. apply Hk. destruct (g_ph g); cbn in Hne, Hno; split; congruence.
+    - intros [Hne Hno]. apply Hk. destruct (g_ph g); try destruct sp; cbn in Hne, Hno; split; congruence.
+    - destruct (g_ph g) eqn:Eph; destruct p; cbn [g_ph g_sub]; intros [Hne Hno]; try (apply Hk; split; congruence); congruence.
+    - destruct (g_ph g) eqn:Eph; cbn [g_ph g_sub]; intros [Hne Hno]; apply Hk; split; congruence.
+    - destruct (g_ph g) eqn:Eph; cbn [g_ph g_sub]; intros [Hne Hno]; apply Hk; split; congruence.
     - destruct (g_ph g) eqn:Eph.
-      2-9: rewrite Hna by congruence; rewrite Eph; intros _; apply Hk; congruence.
-      destruct (Ha eq_refl) as [->|(p0 & -> & Hq & ->)]; [rewrite Eph; congruence|].
+      2-10: rewrite Hna by congruence; rewrite Eph; intros Hq; apply Hk; exact Hq.
+      destruct (Ha eq_refl) as [->|(p0 & -> & Hq & ->)]; [rewrite Eph; intros [Hq _]; congruence|].
       cbn. intros _. exists p0. split; [apply in_or_app; right; left; reflexivity|auto].
   Qed.
 
@@ -184,42 +214,47 @@ Section Lang.
   Qed.
 
   Lemma sub_g0 : sub_inv g0 [].
-  Proof. intros H. cbn in H. congruence. Qed.
+  Proof. intros [H _]. cbn in H. congruence. Qed.
 
   (* ---- (a) before the first PUBLISH construction ---- *)
-  Lemma notyet_step g e : g_ph g = GAbs \/ g_ph g = GNot -> pub_of e = None -> g_ph (gnext i g e) = GAbs \/ g_ph (gnext i g e) = GNot.
+  Definition np (ph : phase) : Prop := ph = GAbs \/ ph = GNot \/ ph = GOther.
+
+  Lemma notyet_step g e : np (g_ph g) -> pub_of e = None -> np (g_ph (gnext i g e)).
   Proof.
-    intros H Hp. by_kind g e; cbn [g_ph].
-    - destruct H as [E | E]; rewrite E; cbn; auto.
-    - destruct H as [E | E]; rewrite E; cbn; auto.
-    - unfold pub_of in Hp. rewrite Ee in Hp. destruct H as [E | E]; rewrite E; destruct p; cbn; rewrite ?E; auto; discriminate.
-    - destruct H as [E | E]; rewrite E; cbn; rewrite ?E; auto.
-    - destruct H as [E | E]; rewrite E; cbn; rewrite ?E; auto.
-    - destruct H as [E|E].
+    unfold np. intros H Hp. by_kind g e; cbn [g_ph].
+    - destruct H as [E |[E | E]]; rewrite E; cbn; auto.
+    - destruct H as [E |[E | E]]; rewrite E; cbn; auto.
+    - unfold pub_of in Hp. rewrite Ee in Hp. destruct H as [E |[E | E]]; rewrite E; destruct p; cbn; rewrite ?E; auto; discriminate.
+    - destruct H as [E |[E | E]]; rewrite E; cbn; rewrite ?E; auto.
+    - destruct H as [E |[E | E]]; rewrite E; cbn; rewrite ?E; auto.
+    - destruct H as [E|[E|E]].
       + destruct (Ha E) as [->|(p0 & _ & _ & ->)]; cbn; auto.
+      + rewrite Hna by congruence. auto.
       + rewrite Hna by congruence. auto.
   Qed.
 
-  Lemma notyet_run l : forall g, g_ph g = GAbs \/ g_ph g = GNot -> (forall e, In e l -> pub_of e = None) ->
-    g_ph (grun i g l) = GAbs \/ g_ph (grun i g l) = GNot.
+  Lemma notyet_run l : forall g, np (g_ph g) -> (forall e, In e l -> pub_of e = None) -> np (g_ph (grun i g l)).
   Proof.
     induction l as [|e l IH]; intros g H Hl; [exact H|]. cbn. apply IH; [|intros x Hx; apply Hl; right; exact Hx].
     apply notyet_step; [exact H|apply Hl; left; reflexivity].
   Qed.
 
+  Lemma pub_enc e pb : pub_of e = Some pb -> enc_of e = Some (Publish pb).
+  Proof. unfold pub_of. destruct (enc_of e) as [p|]; [|discriminate]. destruct p; try discriminate. intros H; inversion H; reflexivity. Qed.
+
   Theorem first_transmission l1 e l2 pb :
-    accepts i g0 (l1 ++ e :: l2) -> pub_of e = Some pb -> submitted l1 -> (forall x, In x l1 -> pub_of x = None) ->
+    accepts i g0 (l1 ++ e :: l2) -> pub_of e = Some pb -> submitted (l1 ++ e :: l2) -> (forall x, In x l1 -> pub_of x = None) ->
     pub_dup pb = false /\ 1 <= pub_pid pb <= 65535 /\ pub_qos pb <> 0 /\
     exists p0, In (DS i p0) l1 /\ pubq p0 = true /\ norm (Publish pb) = norm p0.
   Proof.
-    intros Hacc He Hsub Hno. apply accepts_app in Hacc. destruct Hacc as [_ [Hok _]].
+    intros Hacc He Hsub Hno. pose proof (pub_enc e pb He) as Ee. pose proof (sub_q12 l1 e l2 _ Hacc Ee Hsub) as Hq.
+    apply accepts_app in Hacc. destruct Hacc as [_ [Hok _]].
     set (g := grun i g0 l1) in *.
     assert (Hph : g_ph g = GNot).
-    { destruct (notyet_run l1 g0 (or_introl eq_refl) Hno) as [E|E]; [|exact E]. exfalso. exact (born l1 Hsub g0 E). }
-    unfold pub_of in He. destruct (enc_of e) as [p|] eqn:Ee; [|discriminate]. destruct p; try discriminate. inversion He; subst p.
+    { fold g in Hq. destruct (notyet_run l1 g0 (or_introl eq_refl) Hno) as [E|[E|E]]; fold g in E; [|exact E|]; destruct Hq; congruence. }
     destruct (gnext_enc g e _ Ee) as [_ Hk]. apply Hk in Hok. rewrite Hph in Hok. destruct Hok as (pb' & E & D & R & Q & Nn). inversion E; subst pb'.
     split; [exact D|]. split; [exact R|]. split; [exact Q|].
-    pose proof (sub_run l1 g0 [] sub_g0) as Hs. cbn [app] in Hs. fold g in Hs. destruct (Hs ltac:(congruence)) as (p0 & A & B & C).
+    pose proof (sub_run l1 g0 [] sub_g0) as Hs. cbn [app] in Hs. fold g in Hs. destruct (Hs Hq) as (p0 & A & B & C).
     exists p0. split; [exact A|]. split; [exact B|congruence].
   Qed.
 
@@ -248,20 +283,21 @@ Section Lang.
   Qed.
 
   (* a PUBLISH is handed to the encoder only in phase GNot or GInt, and seats the operation *)
-  Lemma pub_accepted g e pb : pub_of e = Some pb -> g_ph g <> GAbs -> gok i g e ->
+  Lemma pub_accepted g e pb : pub_of e = Some pb -> q12 (g_ph g) -> gok i g e ->
     (g_ph g = GNot \/ exists pid, g_ph g = GInt pid) /\ g_ph (gnext i g e) = GCur (pub_pid pb) (pub_dup pb).
   Proof.
-    intros He Hne Hok. unfold pub_of in He. destruct (enc_of e) as [p|] eqn:Ee; [|discriminate]. destruct p; try discriminate. inversion He; subst.
+    intros He [Hne Hno] Hok. unfold pub_of in He. destruct (enc_of e) as [p|] eqn:Ee; [|discriminate]. destruct p; try discriminate. inversion He; subst.
     destruct (gnext_enc g e _ Ee) as [-> Hk]. apply Hk in Hok.
     destruct (g_ph g) eqn:Eph; try contradiction; try discriminate; try congruence; try (destruct Hok; discriminate); cbn; split; eauto.
   Qed.
 
   Theorem no_second_publish l1 e1 lm e2 l2 pb1 pb2 :
-    accepts i g0 (l1 ++ e1 :: lm ++ e2 :: l2) -> submitted l1 -> pub_of e1 = Some pb1 -> pub_of e2 = Some pb2 ->
+    accepts i g0 (l1 ++ e1 :: lm ++ e2 :: l2) -> submitted (l1 ++ e1 :: lm ++ e2 :: l2) -> pub_of e1 = Some pb1 -> pub_of e2 = Some pb2 ->
     exists x, In x lm /\ boundary x = true.
   Proof.
-    intros Hacc Hsub H1 H2. apply accepts_app in Hacc. destruct Hacc as [_ [Hok1 Hacc]].
-    set (g := grun i g0 l1) in *. assert (Hne : g_ph g <> GAbs) by (apply born; exact Hsub).
+    intros Hacc Hsub H1 H2. pose proof (sub_q12 l1 e1 _ _ Hacc (pub_enc e1 pb1 H1) Hsub) as Hne.
+    apply accepts_app in Hacc. destruct Hacc as [_ [Hok1 Hacc]].
+    set (g := grun i g0 l1) in *.
     destruct (pub_accepted g e1 pb1 H1 Hne Hok1) as [_ Hcur].
     apply accepts_app in Hacc. destruct Hacc as [_ [Hok2 _]].
     destruct (existsb boundary lm) eqn:Eb.
@@ -272,7 +308,7 @@ Section Lang.
     assert (Hop1 : openP (g_ph (gnext i g e1))) by (rewrite Hcur; exact I).
     pose proof (open_run lm (gnext i g e1) (or_introl Hop1) Hnb) as Hop.
     set (g2 := grun i (gnext i g e1) lm) in *.
-    assert (Hne2 : g_ph g2 <> GAbs) by (destruct Hop as [Hop|Hop]; [destruct (g_ph g2); cbn in Hop; try tauto; discriminate|congruence]).
+    assert (Hne2 : q12 (g_ph g2)) by (destruct Hop as [Hop|Hop]; [destruct (g_ph g2); cbn in Hop; try tauto; split; discriminate|rewrite Hop; split; discriminate]).
     destruct (pub_accepted g2 e2 pb2 H2 Hne2 Hok2) as [[E|(pid & E)] _]; rewrite E in Hop; cbn in Hop; destruct Hop; try contradiction; discriminate.
   Qed.
 
@@ -296,12 +332,12 @@ Section Lang.
   Qed.
 
   Theorem pubrel_after_pubrec l1 e1 lm e2 l2 a p :
-    accepts i g0 (l1 ++ e1 :: lm ++ e2 :: l2) -> submitted l1 -> rec_of e1 = Some a -> enc_of e2 = Some p ->
+    accepts i g0 (l1 ++ e1 :: lm ++ e2 :: l2) -> rec_of e1 = Some a -> enc_of e2 = Some p ->
     (forall x, In x lm -> sess_item x <> Some false) ->
     p = Pubrel (default_ack (ack_pid a)).
   Proof.
-    intros Hacc Hsub H1 H2 Hns. apply accepts_app in Hacc. destruct Hacc as [_ [Hok1 Hacc]].
-    set (g := grun i g0 l1) in *. assert (Hne : g_ph g <> GAbs) by (apply born; exact Hsub).
+    intros Hacc H1 H2 Hns. apply accepts_app in Hacc. destruct Hacc as [_ [Hok1 Hacc]].
+    set (g := grun i g0 l1) in *.
     destruct (gnext_rec g e1 a H1) as [Eg Hk]. specialize (Hk Hok1).
     assert (Hrel : relP (ack_pid a) (g_ph (gnext i g e1))).
     { rewrite Eg. unfold relP. destruct (g_ph g) eqn:Eph; try contradiction; try congruence; subst; cbn; rewrite ?Eph; auto. }
@@ -312,34 +348,50 @@ Section Lang.
   Qed.
 
   (* ---- (d) after a CONNACK without session: restart ---- *)
-  Lemma restart_step g e : g_ph g = GNot \/ g_ph g = GGone -> enc_of e = None -> g_ph (gnext i g e) = GNot \/ g_ph (gnext i g e) = GGone.
+  Definition rsP (ph : phase) : Prop := ph = GAbs \/ ph = GNot \/ ph = GGone.
+
+  Lemma restart_step g e : rsP (g_ph g) -> enc_of e = None -> rsP (g_ph (gnext i g e)).
   Proof.
-    intros H He. destruct H as [H|H]; [|right; apply gone_step; exact H]. left.
-    by_kind g e; cbn [g_ph]; try discriminate; rewrite ?H; cbn; rewrite ?H; try reflexivity.
-    rewrite Hna; [exact H|congruence].
+    unfold rsP. intros H He. by_kind g e; cbn [g_ph]; try discriminate.
+    - destruct H as [E|[E|E]]; rewrite E; cbn; auto.
+    - destruct H as [E|[E|E]]; rewrite E; cbn; auto.
+    - destruct H as [E|[E|E]]; rewrite E; cbn; rewrite ?E; auto.
+    - destruct H as [E|[E|E]]; rewrite E; cbn; rewrite ?E; auto.
+    - destruct H as [E|[E|E]].
+      + destruct (Ha E) as [->|(p0 & _ & _ & ->)]; cbn; auto.
+      + rewrite Hna by congruence. auto.
+      + rewrite Hna by congruence. auto.
   Qed.
 
-  Lemma restart_run l : forall g, g_ph g = GNot \/ g_ph g = GGone -> (forall e, In e l -> enc_of e = None) ->
-    g_ph (grun i g l) = GNot \/ g_ph (grun i g l) = GGone.
+  Lemma restart_run l : forall g, rsP (g_ph g) -> (forall e, In e l -> enc_of e = None) -> rsP (g_ph (grun i g l)).
   Proof.
     induction l as [|e l IH]; intros g H Hl; [exact H|]. cbn. apply IH; [|intros x Hx; apply Hl; right; exact Hx].
     apply restart_step; [exact H|apply Hl; left; reflexivity].
   Qed.
 
+  Lemma other_run l : forall g, g_ph g = GOther -> g_ph (grun i g l) = GOther.
+  Proof. induction l as [|e l IH]; intros g H; [exact H|]. cbn. apply IH. apply other_step. exact H. Qed.
+
   Theorem restart_after_no_session l1 e1 lm e2 l2 p :
-    accepts i g0 (l1 ++ e1 :: lm ++ e2 :: l2) -> submitted l1 -> sess_item e1 = Some false -> enc_of e2 = Some p ->
+    accepts i g0 (l1 ++ e1 :: lm ++ e2 :: l2) -> submitted (l1 ++ e1 :: lm ++ e2 :: l2) -> sess_item e1 = Some false -> enc_of e2 = Some p ->
     (forall x, In x lm -> enc_of x = None) ->
     exists pb, p = Publish pb /\ pub_dup pb = false /\ 1 <= pub_pid pb <= 65535 /\ pub_qos pb <> 0.
   Proof.
-    intros Hacc Hsub H1 H2 Hno. apply accepts_app in Hacc. destruct Hacc as [_ [_ Hacc]].
-    set (g := grun i g0 l1) in *. assert (Hne : g_ph g <> GAbs) by (apply born; exact Hsub).
-    assert (H0 : g_ph (gnext i g e1) = GNot \/ g_ph (gnext i g e1) = GGone).
-    { rewrite (gnext_sess g e1 false H1). cbn [g_ph]. destruct (g_ph g); cbn; auto; congruence. }
+    intros Hacc Hsub H1 H2 Hno.
+    assert (Hq2 : q12 (g_ph (grun i g0 (l1 ++ e1 :: lm)))).
+    { apply (sub_q12 (l1 ++ e1 :: lm) e2 l2 p); [rewrite <- app_assoc; exact Hacc|exact H2|rewrite <- app_assoc; exact Hsub]. }
+    rewrite grun_app in Hq2. cbn [grun fold_left] in Hq2. fold (grun i (gnext i (grun i g0 l1) e1) lm) in Hq2.
+    apply accepts_app in Hacc. destruct Hacc as [_ [_ Hacc]].
+    set (g := grun i g0 l1) in *.
     apply accepts_app in Hacc. destruct Hacc as [_ [Hok2 _]].
-    pose proof (restart_run lm (gnext i g e1) H0 Hno) as Hr.
     set (g2 := grun i (gnext i g e1) lm) in *. destruct (gnext_enc g2 e2 p H2) as [_ Hk2]. apply Hk2 in Hok2.
-    destruct Hr as [E|E]; rewrite E in Hok2; [|contradiction].
-    destruct Hok2 as (pb & A & B & C & D & _). exists pb. auto.
+    assert (H0 : rsP (g_ph (gnext i g e1)) \/ g_ph (gnext i g e1) = GOther).
+    { rewrite (gnext_sess g e1 false H1). cbn [g_ph]. unfold rsP. destruct (g_ph g); cbn; auto. }
+    destruct H0 as [H0|H0].
+    - pose proof (restart_run lm (gnext i g e1) H0 Hno) as Hr. fold g2 in Hr. destruct Hq2 as [Q1 Q2].
+      destruct Hr as [E|[E|E]]; [congruence| |]; rewrite E in Hok2; [|contradiction].
+      destruct Hok2 as (pb & A & B & C & D & _). exists pb. auto.
+    - pose proof (other_run lm (gnext i g e1) H0) as Hr. fold g2 in Hr. destruct Hq2 as [Q1 Q2]. congruence.
   Qed.
 
   (* ---- (c) a DUP = 1 PUBLISH ---- *)
@@ -410,27 +462,28 @@ Section Lang.
   Lemma hist_step g l e : hist (g_ph g) l -> gok i g e -> hist (g_ph (gnext i g e)) (l ++ [e]).
   Proof.
     intros H Hok. by_kind g e; cbn [g_ph].
-    - destruct (g_ph g) as [| |pid d|pid|pid|pid|pid|pid|]; cbn in *; auto.
+    - destruct (g_ph g) as [| |pid d|pid|pid|pid|pid|pid| |]; cbn in *; auto.
       + destruct d; cbn; [apply wrote_snoc; apply H; reflexivity|exact I].
       + apply wrote_now_b; assumption.
       + apply wrote_snoc; assumption.
-    - destruct (g_ph g) as [| |pid d|pid|pid|pid|pid|pid|]; cbn in *; auto; destruct sp; cbn; auto. apply wrote_snoc; assumption.
+    - destruct (g_ph g) as [| |pid d|pid|pid|pid|pid|pid| |]; cbn in *; auto; destruct sp; cbn; auto. apply wrote_snoc; assumption.
     - apply Hok0 in Hok. assert (Hpo : forall pb, p = Publish pb -> pub_of e = Some pb) by (intros pb ->; unfold pub_of; rewrite Ee; reflexivity).
-      destruct (g_ph g) as [| |pid d|pid|pid|pid|pid|pid|] eqn:Eph; try contradiction.
+      destruct (g_ph g) as [| |pid d|pid|pid|pid|pid|pid| |] eqn:Eph; try contradiction.
       + destruct p; cbn; rewrite ?Eph; exact I.
       + destruct Hok as (pb & -> & D & _). cbn. split; [apply enc_now_new; apply Hpo; reflexivity|rewrite D; discriminate].
       + destruct Hok as (pb & -> & D & Pd & _). cbn. split; [apply enc_now_new; apply Hpo; reflexivity|]. intros _. rewrite Pd. apply wrote_snoc. exact H.
       + subst p. cbn. rewrite Eph. exact I.
       + destruct Hok as [-> _]. cbn. exact I.
-    - destruct (g_ph g) as [| |pid d|pid|pid|pid|pid|pid|] eqn:Eph; cbn; rewrite ?Eph; cbn; auto.
+      + cbn. rewrite Eph. exact I.
+    - destruct (g_ph g) as [| |pid d|pid|pid|pid|pid|pid| |] eqn:Eph; cbn; rewrite ?Eph; cbn; auto.
       + destruct H as [A _]. eapply enc_now_done; eassumption.
       + apply wrote_now_nb; assumption.
       + apply wrote_snoc; assumption.
-    - destruct (g_ph g) as [| |pid d|pid|pid|pid|pid|pid|] eqn:Eph; cbn; rewrite ?Eph; cbn; auto.
+    - destruct (g_ph g) as [| |pid d|pid|pid|pid|pid|pid| |] eqn:Eph; cbn; rewrite ?Eph; cbn; auto.
       + apply (hist_keep (GCur pid d)); assumption.
       + apply wrote_snoc; assumption.
     - destruct (g_ph g) eqn:Eph.
-      2-9: rewrite Hna by congruence; rewrite Eph; apply hist_keep; [exact H|exact Eb].
+      2-10: rewrite Hna by congruence; rewrite Eph; apply hist_keep; [exact H|exact Eb].
       destruct (Ha eq_refl) as [->|(p0 & _ & _ & ->)]; [rewrite Eph; exact I|exact I].
   Qed.
 
@@ -456,7 +509,7 @@ Section Lang.
     - destruct (g_ph g); cbn [g_sp]; intros Hs; apply sp_keep; auto.
     - destruct (g_ph g); cbn [g_sp]; intros Hs; apply sp_keep; auto.
     - destruct (g_ph g) eqn:Eph.
-      2-9: rewrite Hna by congruence; intros Hs; apply sp_keep; auto.
+      2-10: rewrite Hna by congruence; intros Hs; apply sp_keep; auto.
       destruct (Ha eq_refl) as [->|(p0 & _ & _ & ->)]; cbn [g_sp]; intros Hs; apply sp_keep; auto.
   Qed.
 
@@ -467,17 +520,18 @@ Section Lang.
   Qed.
 
   Theorem retransmission l1 e l2 pb :
-    accepts i g0 (l1 ++ e :: l2) -> submitted l1 -> pub_of e = Some pb -> pub_dup pb = true ->
+    accepts i g0 (l1 ++ e :: l2) -> submitted (l1 ++ e :: l2) -> pub_of e = Some pb -> pub_dup pb = true ->
     sp_now l1 /\ wrote (pub_pid pb) l1 /\ pub_qos pb <> 0 /\ exists p0, In (DS i p0) l1 /\ pubq p0 = true /\ norm (Publish pb) = norm p0.
   Proof.
-    intros Hacc Hsub He Hd. apply accepts_app in Hacc. destruct Hacc as [Ha1 [Hok _]].
-    set (g := grun i g0 l1) in *. assert (Hne : g_ph g <> GAbs) by (apply born; exact Hsub).
+    intros Hacc Hsub He Hd. pose proof (sub_q12 l1 e l2 _ Hacc (pub_enc e pb He) Hsub) as Hne.
+    apply accepts_app in Hacc. destruct Hacc as [Ha1 [Hok _]].
+    set (g := grun i g0 l1) in *.
     pose proof (hist_run l1 g0 [] Ha1 I) as Hh. pose proof (sp_run l1 g0 [] (fun H : g_sp g0 = true => ltac:(discriminate))) as Hs.
     pose proof (sub_run l1 g0 [] sub_g0) as Hb. cbn [app] in Hh, Hs, Hb. fold g in Hh, Hs, Hb.
     unfold pub_of in He. destruct (enc_of e) as [p|] eqn:Ee; [|discriminate]. destruct p; try discriminate. inversion He; subst p.
     destruct (gnext_enc g e _ Ee) as [_ Hk]. apply Hk in Hok.
     destruct (Hb Hne) as (p0 & B1 & B2 & B3).
-    destruct (g_ph g) eqn:Eph; try contradiction; try congruence; try discriminate; try (destruct Hok; discriminate).
+    destruct (g_ph g) eqn:Eph; try contradiction; try (destruct Hne; congruence); try discriminate; try (destruct Hok; discriminate).
     - destruct Hok as (pb' & E & D & _). inversion E; subst. congruence.
     - destruct Hok as (pb' & E & D & Pd & Q & Nn & Sp). inversion E; subst pb'. cbn in Hh. rewrite <- Pd in Hh.
       split; [apply Hs; exact Sp|]. split; [exact Hh|]. split; [exact Q|]. exists p0. split; [exact B1|]. split; [exact B2|congruence].
